@@ -262,6 +262,38 @@ func c05Worker(c *core.Collector, x *Ctx) {
 		}
 		run("random-large", fs, r.Intn(4), r, true)
 	})
+	// long history on ONE parser: several hundred consecutive transfers (two message IDs alternating and overlapping, all
+	// segmentation modes) so that whatever the parser accumulates over a connection's life (maps, buffers, counters) is aged
+	nl := c.N(4, 16)
+	core.ParallelFor(nl, ncpu(), func(i int) {
+		r := core.NewRand(c.Seed, "c05long", uint64(i))
+		var fs [][]byte
+		v19 := i%2 == 1
+		ntr := 200 + r.Intn(100)
+		serial := uint16(r.Intn(60000))
+		for tr := 0; tr < ntr; tr++ {
+			N := 2 + r.Intn(4)
+			if tr%50 == 49 {
+				N = 40 + r.Intn(30)
+			}
+			id := []uint16{0x0801, 0x0704}[tr%2]
+			bodies := c05Bodies(r, N, r.Intn(8))
+			order := []int{1}
+			for _, q := range r.Perm(N - 1) {
+				order = append(order, q+2)
+			}
+			for _, k := range order {
+				serial++
+				fs = append(fs, hookFrame(v19, id, serial, true, uint16(N), uint16(k), bodies[k-1]))
+				if r.Chance(1, 9) {
+					serial++
+					fs = append(fs, hookFrame(v19, 0x0002, serial, false, 0, 0, nil))
+				}
+			}
+		}
+		run("long-history", fs, i%4, r, true)
+		c.Count("long_history_transfers_on_one_parser", int64(ntr))
+	})
 	// robustness outside the defined behaviour: contradictory totals, repeated packet 1, numbers beyond an earlier total.
 	// The property does not say what is delivered here, only that the server is not disturbed: the oracle is "no panic".
 	ng := c.N(3000, 100000)
